@@ -5,12 +5,32 @@ V = os.path.dirname(os.path.dirname(os.path.abspath(__file__)))
 props = [json.loads(l) for l in open(os.path.join(V, 'properties.jsonl'))]
 ids = [p['id'] for p in props]
 
+T_OFF = 'symbolic execution of tex2txt (CrossHair) on skeleton documents with symbolic offsets; z3 validity queries link each path to a native run; event oracle; native replay'
+N_OFF = 'Trusted: CrossHair 0.0.110 + z3 5.1.0; scanner re-basing stub (prechecked per skeleton, linked natively per path); stderr formatting stub; event annotations of vf/docs.py (reference written from property texts/README). Bound: the enumerated document family (see evidence.bounds); inside it the solver decides offsets, hole contents and layouts.'
 CLAIMED = {
  'C01': dict(
    text='Bounded symbolic model checking of the real filter: for every skeleton of the catalogue (well-formed, faulty, truncated, token-deleted) x option set x multi-language flag, CrossHair/z3 explores every path of tex2txt on the document P.S.Q with the lengths d,e of the surrounding comment text symbolic and unbounded; z3 discharges len(plain)==len(map) and 1<=p<=len(source) for all d,e of each path; each path is linked to a native run of the unmodified code.',
-   note='Trusted: CrossHair 0.0.110 + z3 5.1.0; scanner re-basing stub (prechecked per skeleton, linked natively per path); stderr formatting stub. Bound: the skeleton family and option sets listed in evidence; P,Q comment text only. CLI --nums only via write_output harness + smoke run.',
+   note='Trusted: CrossHair 0.0.110 + z3 5.1.0; scanner re-basing stub (prechecked per skeleton, linked natively per path); stderr formatting stub. Bound: the skeleton family and option sets listed in evidence; P,Q comment text only. CLI --nums is exercised by replays only.',
    technique='symbolic execution of tex2txt (CrossHair) with symbolic offsets; z3 validity queries for range/length; native replay',
    ref='DESIGN.md 4/C01'),
+ 'C02': dict(text='Bounded symbolic model checking: document family (construct catalogue: singles, pairs x layouts, nestings, repeats) with symbolic surrounding offsets, plus sketches with a symbolic hole (blanks / letters, length <= 3) before, inside and after every position-sensitive construct; per path z3 proves the output is the native output up to the symbolic parts, the event oracle demands every copied character at its own source offset.',
+   note=N_OFF, technique=T_OFF + '; token-spliced symbolic holes', ref='DESIGN.md 4/C02'),
+ 'C03': dict(text='Same machinery as C02 with the text-conservation assertions of the event oracle: expected copies in order, detached flows after the main flow, generated text per construct, nothing else (no hidden text, no markup).',
+   note=N_OFF, technique=T_OFF, ref='DESIGN.md 4/C03'),
+ 'C04': dict(text='Same machinery as C02 with the assertion that every generated character (placeholders, labels, full stops, titles, macro bodies, separators) maps into the source span of its construct, including repeated and nested uses.',
+   note=N_OFF, technique=T_OFF, ref='DESIGN.md 4/C04'),
+ 'C13': dict(text='Real substitute/replace_phrases executed under CrossHair with the position list made of free symbolic integers; z3 proves (validity, all integer values) that every output position is the reference one; an independent word matcher gives the expected text; the separator pattern built by the real code is translated to a z3 regular expression and the paragraph-safety obligations are discharged (unbounded).',
+   note='Trusted: CrossHair+z3, re._parser, the 50-line reference matcher. Bound: catalogue of texts x rule lists (evidence); positions unbounded.',
+   technique='symbolic execution with symbolic position lists + z3 validity queries; z3 regex-language obligations', ref='DESIGN.md 4/C13'),
+ 'C14': dict(text='Real run_proofreader_options + all report generators + server handler on documents with several lines / non-ASCII / footnotes / 5-part multi-language split; symbolic: part index, offset, length of the flagged span, ml_rule_threshold (unbounded); every output format parsed and compared with the reference line/column/length; ordering and per-part language/options checked.',
+   note='Trusted: CrossHair+z3; proofreader process stubbed at run_languagetool; the filter itself runs natively (its result does not depend on the symbolic variables). Bound: 6 documents, span length <= 8.',
+   technique='symbolic execution of the shell aggregation and generators (CrossHair) with symbolic match coordinates and threshold; native replay', ref='DESIGN.md 4/C14'),
+ 'C15': dict(text='Real aggregation, decoder and generators on answers whose malformed field and value kind, offset/length (unbounded integers), context offsets and truncation point are symbolic; outcome per output mode must be the shell diagnostic + exit 1 or a report with all locations inside the file.',
+   note='Trusted: CrossHair+z3 (native validation of every path: CPython is authoritative where CrossHair is more lenient); proofreader process stubbed at subprocess.run / run_languagetool. Bound: 3 documents, single-field faults, 2 answers truncated at every byte.',
+   technique='symbolic execution with symbolic fault choice / integers / truncation point; native validation and replay', ref='DESIGN.md 4/C15'),
+ 'C16': dict(text='protect_html: z3 regular-language obligations on the patterns read from the real function (each matches exactly one special character) + exhaustive symbolic choice over alphabet^2; generate_html: two matches with symbolic offset, distance, lengths and unbounded context size on sources with HTML-special characters; report parsed with html.parser and compared with the source lines, highlighted spans and allowed markup.',
+   note='Trusted: CrossHair+z3, html.parser as reference decoder. Bound: 4 sources <= 4 lines, 2 matches, lengths <= 3.',
+   technique='z3 regex obligations + symbolic execution of generate_html with symbolic match geometry', ref='DESIGN.md 4/C16'),
 }
 NOT_YET = 'check not built yet in this session (planned: see DESIGN.md section 4)'
 
